@@ -164,11 +164,24 @@ func (m *multi) DeserializeCellBlocks(msg proto.Message, b []byte) (uint32, erro
 	var nread uint32
 	// answered[i-1] is set once a result for the action with index i has been seen
 	answered := make([]bool, len(m.calls))
-	for _, rar := range mr.GetRegionActionResult() {
+	for j, rar := range mr.GetRegionActionResult() {
 		if e := rar.GetException(); e != nil {
 			if l := len(rar.GetResultOrException()); l != 0 {
 				return 0, fmt.Errorf(
 					"got exception for region, but still have %d result(s) returned from it", l)
+			}
+			// the exception answers every call of that region
+			if j < len(m.regions) {
+				for i, c := range m.calls {
+					if c == nil || c.Region() != m.regions[j] {
+						continue
+					}
+					if answered[i] {
+						return 0, fmt.Errorf(
+							"more than one result for index %d in multi response", i+1)
+					}
+					answered[i] = true
+				}
 			}
 			continue
 		}
